@@ -91,17 +91,29 @@ def gen_cases(tier, rng):
         if module:
             cases.append({"id": "modport/%s" % g["id"], "hex": C14.paths_case(g["id"], module, None, {"retries": 0}, []),
                           "meta": {"stream": "module-default-port", "game": g["id"], "events": [], "tags": {}}})
+    cases += minecraft_extra_cases(tier, rng, r)
+    return cases
+
+
+def minecraft_extra_cases(tier, rng, r, every_pair=False):
+    """the generic entry point with extra request settings on Minecraft Java: the handshake must carry the
+    host name (default "gamedig") and the protocol version (default -1) of the settings, each independently"""
     import C03
+    cases = []
     mcseeds = [rng.next() >> 1 for _ in range(60 if tier == "quick" else 1500)]
     outs = run_model([(bytes([133]) + x.to_bytes(8, "big") + bytes([1])).hex() for x in mcseeds])
     hosts = [None, "", "gamedig", "mc.example.org", "h\u00e9te", "a" * 127, "b" * 128, "c" * 300]
     protos = [None, -1, 0, 47, 763, 2147483647, -2147483648, 128, 16384]
+    pairs = [(h, p) for h in hosts for p in protos]
+    n = 0
     for x, o in zip(mcseeds, outs):
         if o == "SKIP":
             continue
         udp, tcp, expected, js, tags = C03.parse_spec(o)
         for k in range(3):
-            host, proto = r.choice(hosts), r.choice(protos)
+            # walk through every (host name, protocol version) pair, then random ones
+            host, proto = pairs[n % len(pairs)] if n < len(pairs) * 2 else (r.choice(hosts), r.choice(protos))
+            n += 1
             port = r.choice([None, 25565, 1, 65535, 25577])
             gid = r.choice(["minecraftjava", "minecraft"])
             extra = None if (host is None and proto is None and r.chance(1, 2)) else {"hostname": host, "protocol": proto}
